@@ -1,5 +1,6 @@
 import Dnp3.Model.OutstationTrace
 import Dnp3.Proofs.OutstationC05
+import Dnp3.Proofs.OutstationC05Trace
 /-!
 # C05 — A retransmitted request is answered from memory and never executed twice
 
@@ -248,5 +249,123 @@ theorem resend_is_awaited_fragment {a : Acc} {f : Frag} {ctrl : AppCtrl} {object
         ∃ b', solWaitOnFragment b series' deadline' cont' = .blocked b' ∧
           b'.2 = b.2 ++ [.tx f'.src bytes] ∧ b'.1.solBuf = b.1.solBuf ∧ b'.1.lastReq = b.1.lastReq :=
   @Dnp3.Proofs.C05.resend_is_awaited_fragment a f ctrl objects raw last series dl cont hp hq hm hu hs hfin hl
+
+end Dnp3.Props.C05
+
+/-! ## C05 at TRACE level (`Dnp3.Proofs.OutstationC05Trace`)
+
+`repeat_never_executes_twice`: over every run from `Outstation.start`, a byte-identical non-READ request delivered
+again — with only clock ticks, CONFIRM fragments and undelivered frames in between — is not executed a second time
+and is answered with exactly the solicited octets sent for it the first time (or the task died: `OOut.panic`).
+Supporting statements: the per-step lemmas `nr_step` (the step that receives the request: it establishes the
+"echo-ready" state `ER`, and from an `ER` state reproduces record and octets) and `between_step` (ticks / CONFIRMs
+keep `ER`), and the two trace invariants they rest on (`deferred_only_in_unsolWait`, `nonfinal_wait_is_read`).
+`solTx`, `Unicast`, `Between`, `ER`, `StepPost`, `StepKeep`, `DefInv`, `LRInv` are defined in
+`Dnp3.Proofs.OutstationC05Trace`.  Requests whose objects do not parse are excluded (finding D31, see
+`repeat_malformed_reanswered_counterexample` above). -/
+namespace Dnp3.Props.C05
+open Dnp3 Dnp3.Proofs Dnp3.Proofs.C04 Dnp3.Proofs.C05T
+
+/-- **C05 (trace level) `repeat_never_executes_twice`**.  In EVERY run of the outstation from construction
+    (`Outstation.start cfg evMax`, any input list, any configuration, any transmit buffer sizes): let inputs `i < j`
+    both deliver the byte-identical request fragment `data` — a unicast frame for this outstation (`Unicast`:
+    destination its address or the enabled self address, valid source, neither empty nor longer than the receive
+    buffer) from the accepted master, which parses as a request with function code other than CONFIRM (0) and
+    READ (1) and whose OBJECTS PARSE (`.ok hs`; finding D31, `repeat_malformed_reanswered_counterexample`: a
+    repeated request whose objects do not parse is answered afresh, so that case is excluded here) — and let every
+    input strictly between them be a clock tick, a CONFIRM fragment (solicited or unsolicited, any sequence number,
+    from anyone, to any address) or a frame the transport layer does not deliver (`Between`).  Then
+
+    1. step `j` fires NO executing callback (`isExec`: control / write / freeze / time / restart, begin/end
+       fragment): the request is not executed a second time; and
+    2. the solicited responses step `j` transmits (`solTx`: the transmitted application fragments with function
+       octet 0x81, with their destination) are EXACTLY those step `i` transmitted — the same octets to the same
+       address, and none at all if the request has no response (functions 6, 8, 10, 12) — unless the task died
+       on the way: `OOut.panic` is among the outputs of some step `k` with `i ≤ k ≤ j` (with the opaque `Db`
+       the IIN computation may fail at any time: defect D3).  If the task was dead already before step `i`, both
+       steps output nothing, so the equation holds.
+
+    The state the session is in at step `i` is arbitrary (idle, waiting for the confirm of any fragment of a
+    solicited series, waiting for an unsolicited confirm with or without a deferred READ), as is the state at step
+    `j` (idle, the confirm wait the response itself opened, an unsolicited confirm wait started in between);
+    the request at step `i` may itself be new or a retransmission. -/
+theorem repeat_never_executes_twice (cfg : OCfg) (evMax : Nat) (env : OEnv) (inputs : List OInput)
+    (i j : Nat) (hij : i < j) (hj : j < inputs.length)
+    (src dst : Nat) (data : List Nat) (ctrl : AppCtrl) (func : Nat) (hs : List ObjHdr) (raw : List Nat)
+    (hi : inputs[i]'(Nat.lt_trans hij hj) = .rx src dst data) (hjj : inputs[j] = .rx src dst data)
+    (hq : parseRequest data = .request ctrl func (.ok hs) raw) (hf0 : func ≠ 0) (hf1 : func ≠ 1)
+    (hu : Unicast env src dst data) (hm : cfg.anymaster = true ∨ src = cfg.master)
+    (hbetween : ∀ (k : Nat) (hk : k < inputs.length), i < k → k < j → Between env inputs[k]) :
+    (∀ o ∈ outsAt env (Outstation.start cfg evMax).1 inputs j hj, isExec o = false) ∧
+    (solTx (outsAt env (Outstation.start cfg evMax).1 inputs j hj) =
+        solTx (outsAt env (Outstation.start cfg evMax).1 inputs i (Nat.lt_trans hij hj)) ∨
+      ∃ (k : Nat) (hk : k < inputs.length), i ≤ k ∧ k ≤ j ∧
+        OOut.panic ∈ outsAt env (Outstation.start cfg evMax).1 inputs k hk) :=
+  @Dnp3.Proofs.C05T.repeat_never_executes_twice cfg evMax env inputs i j hij hj src dst data ctrl func hs raw hi hjj hq hf0 hf1 hu hm hbetween
+
+/-- **Lemma A / C**: the step that receives the non-READ request, from any state of a run -/
+theorem nr_step (env : OEnv) (s : OState) (src dst : Nat) (data : List Nat) {ctrl : AppCtrl} {func : Nat}
+    {hs : List ObjHdr} {raw : List Nat} (hu : Unicast env src dst data)
+    (hq : parseRequest data = .request ctrl func (.ok hs) raw) (hf0 : func ≠ 0) (hf1 : func ≠ 1)
+    (hm : s.cfg.anymaster = true ∨ src = s.cfg.master) (halive : s.mode ≠ .dead)
+    (hD : DefInv s) (hJ : LRInv s) :
+    StepPost ctrl.seq data src s (Outstation.step env s (.rx src dst data)) :=
+  @Dnp3.Proofs.C05T.nr_step env s src dst data ctrl func hs raw hu hq hf0 hf1 hm halive hD hJ
+
+/-- **Lemma B**: a step between the two copies keeps `ER` (or the task dies in it) -/
+theorem between_step (env : OEnv) (s : OState) (inp : OInput) (hb : Between env inp) {seq : Nat} {data : List Nat}
+    {resp : Option Resp} {bytes : List Nat} (h : ER seq data resp bytes s) :
+    StepKeep seq data resp bytes (Outstation.step env s inp) :=
+  @Dnp3.Proofs.C05T.between_step env s inp hb seq data resp bytes h
+
+/-- along every run from construction a READ is deferred only while the task waits for an unsolicited confirm
+    (or the task is dead) -/
+theorem deferred_only_in_unsolWait (cfg : OCfg) (evMax : Nat) (env : OEnv) (inputs : List OInput) (n : Nat)
+    (h : n ≤ inputs.length) : DefInv (C04.stateAt env (Outstation.start cfg evMax).1 inputs n) :=
+  @Dnp3.Proofs.C05T.deferred_only_in_unsolWait cfg evMax env inputs n h
+
+/-- along every run from construction: if the stored request waits on a NON-final fragment it is a READ, and a
+    deferred request is a READ -/
+theorem nonfinal_wait_is_read (cfg : OCfg) (evMax : Nat) (env : OEnv) (inputs : List OInput) (n : Nat)
+    (h : n ≤ inputs.length) : LRInv (C04.stateAt env (Outstation.start cfg evMax).1 inputs n) :=
+  @Dnp3.Proofs.C05T.nonfinal_wait_is_read cfg evMax env inputs n h
+
+theorem rxAccept_unicast {env : OEnv} {src dst : Nat} {data : List Nat} (hu : Unicast env src dst data)
+    (s : OState) (ha : s.mode ≠ .dead) :
+    C04.rxAccept env s src dst data = some ⟨s.frameId, src, none, data⟩ :=
+  @Dnp3.Proofs.C05T.rxAccept_unicast env src dst data hu s ha
+
+
+/-- evaluated instances (`exInputs`: idle; `exInputsU`: first handled in the unsolicited confirm wait; `exInputsW`: a
+    WRITE, executed once) -/
+theorem repeat_never_executes_twice_examples :
+    (Outstation.run {} (Outstation.start {} 10).1 exInputs).2.map solTx =
+      [[(1, [192, 129, 128, 0, 52, 2, 7, 1, 0, 0])], [], [], [(1, [192, 129, 128, 0, 52, 2, 7, 1, 0, 0])]] ∧
+    (Outstation.run {} (Outstation.start { unsolicited := true } 10).1 exInputsU).2.map solTx =
+      [[(1, [192, 129, 128, 0, 52, 2, 7, 1, 0, 0])], [], [], [], [(1, [192, 129, 128, 0, 52, 2, 7, 1, 0, 0])]] ∧
+    (Outstation.run {} (Outstation.start {} 10).1 exInputsW).2.map solTx =
+      [[(1, [193, 129, 128, 0])], [], [(1, [193, 129, 128, 0])]] ∧
+    (Outstation.run {} (Outstation.start {} 10).1 exInputsW).2.map (fun l => (l.filter isExec).length) = [1, 0, 0] :=
+  Dnp3.Proofs.C05T.repeat_never_executes_twice_examples
+
+-- the hypotheses of `repeat_never_executes_twice` hold for the run `exInputs`, steps 0 and 3
+example := repeat_never_executes_twice {} 10 {} exInputs 0 3 (by decide) (by decide) 1 1024 [0xC0, 23]
+  (AppCtrl.ofNat 0xC0) 23 [] [] rfl rfl (by rfl) (by decide) (by decide)
+  ⟨.inl rfl, by decide, by decide, by decide⟩ (.inr rfl)
+  (by
+    intro k hk h1 h2
+    have : k = 1 ∨ k = 2 := by omega
+    rcases this with rfl | rfl
+    · exact trivial
+    · exact .inl ⟨_, _, _, rfl⟩)
+-- `between_step` / `nr_step` apply to the state `exER` (it remembers the request `C0 0C`)
+example := between_step {} exER (.tick 10) trivial exER_er
+example := nr_step {} exER 1 1024 [0xC0, 12] (ctrl := AppCtrl.ofNat 0xC0) (func := 12) (hs := []) (raw := [])
+  ⟨.inl rfl, by decide, by decide, by decide⟩ (by rfl) (by decide) (by decide) (.inr rfl)
+  (fun e => (by cases e)) (.inr (.inl rfl))
+  ⟨fun lr sr e es => (by cases e; cases es), fun d e => (by cases e)⟩
+example := deferred_only_in_unsolWait {} 10 {} exInputs 4 (by decide)
+example := nonfinal_wait_is_read {} 10 {} exInputs 4 (by decide)
+example : Unicast {} 1 1024 [0xC0, 23] := ⟨.inl rfl, by decide, by decide, by decide⟩
 
 end Dnp3.Props.C05
